@@ -38,7 +38,11 @@ func rulesAccept(evs []ev.Event, cfg *configuration.Configuration) (int, error) 
 // on which optional interfaces its destination happens to implement.
 func encodeWith(enc ce.Encoder, evs []ev.Event, cfg *configuration.Configuration, withRules bool) ([]byte, int, error) {
 	var buf bytes.Buffer
-	if len(evs)%2 == 1 {
+	parity := len(evs)
+	for i := range evs {
+		parity += len(evs[i].Bs) + len(evs[i].S)
+	}
+	if parity%2 == 1 {
 		enc.PrepareToEncode(plainWriter{&buf})
 	} else {
 		enc.PrepareToEncode(&buf)
